@@ -61,6 +61,56 @@ pub struct Sched {
 
 thread_local! {
     static ACT: Cell<Option<usize>> = Cell::new(None);
+    /// >0 while this thread executes harness code (hooks, trace bookkeeping)
+    static IN_HARNESS: Cell<u32> = const { Cell::new(0) };
+    /// true while this thread is inside a (simulated) signal delivery
+    static IN_DELIVERY: Cell<bool> = const { Cell::new(false) };
+}
+
+/// Allocator wrapper: counts heap allocations and releases performed by the code under test
+/// while the current thread is inside a delivery (C03: a delivery must not touch the heap).
+pub struct CountingAlloc;
+pub static ALLOCS_IN_DELIVERY: std::sync::atomic::AtomicUsize = std::sync::atomic::AtomicUsize::new(0);
+pub static FREES_IN_DELIVERY: std::sync::atomic::AtomicUsize = std::sync::atomic::AtomicUsize::new(0);
+
+fn counting() -> bool {
+    IN_DELIVERY.try_with(|d| d.get()).unwrap_or(false) && IN_HARNESS.try_with(|h| h.get() == 0).unwrap_or(false)
+}
+
+unsafe impl std::alloc::GlobalAlloc for CountingAlloc {
+    unsafe fn alloc(&self, l: std::alloc::Layout) -> *mut u8 {
+        if counting() {
+            ALLOCS_IN_DELIVERY.fetch_add(1, std::sync::atomic::Ordering::SeqCst);
+        }
+        std::alloc::System.alloc(l)
+    }
+    unsafe fn dealloc(&self, p: *mut u8, l: std::alloc::Layout) {
+        if counting() {
+            FREES_IN_DELIVERY.fetch_add(1, std::sync::atomic::Ordering::SeqCst);
+        }
+        std::alloc::System.dealloc(p, l)
+    }
+}
+
+pub struct HarnessScope;
+impl HarnessScope {
+    pub fn enter() -> HarnessScope {
+        IN_HARNESS.with(|h| h.set(h.get() + 1));
+        HarnessScope
+    }
+}
+impl Drop for HarnessScope {
+    fn drop(&mut self) {
+        IN_HARNESS.with(|h| h.set(h.get() - 1));
+    }
+}
+
+/// Marks the calling thread as being inside a signal delivery for the duration of `f`.
+pub fn in_delivery<R>(f: impl FnOnce() -> R) -> R {
+    IN_DELIVERY.with(|d| d.set(true));
+    let r = f();
+    IN_DELIVERY.with(|d| d.set(false));
+    r
 }
 
 static mut SCHED: Option<Arc<Sched>> = None;
@@ -97,6 +147,7 @@ fn readable(fd: i32) -> bool {
 }
 
 fn park(k: usize, op: i64, loc: i64, arg: i64) -> Directive {
+    let _h = HarnessScope::enter();
     let s = sched().expect("scheduler");
     let mut g = s.inner.lock().unwrap();
     loop {
@@ -127,6 +178,7 @@ fn hook_before(e: &Event) -> Directive {
 }
 
 fn hook_after(e: &Event) {
+    let _h = HarnessScope::enter();
     let s = match sched() {
         Some(s) => s,
         None => return,
@@ -143,6 +195,7 @@ static HOOKS: verif::Hooks = verif::Hooks { before: hook_before, after: hook_aft
 
 /// A scheduling point of the harness' own code (actions, foreign handlers, call/return marks).
 pub fn user_point(op: i64, loc: i64, arg: i64, res: i64) {
+    let _h = HarnessScope::enter();
     if let Some(k) = ACT.with(|a| a.get()) {
         park(k, op, loc, arg);
         let s = sched().unwrap();
@@ -153,6 +206,7 @@ pub fn user_point(op: i64, loc: i64, arg: i64, res: i64) {
 
 /// An event of the harness' own code that is NOT a scheduling point (appended to the trace).
 pub fn user_note(op: i64, loc: i64, arg: i64, res: i64) {
+    let _h = HarnessScope::enter();
     if let Some(s) = sched() {
         let k = ACT.with(|a| a.get()).map(|k| k as i64).unwrap_or(-1);
         let mut g = s.inner.lock().unwrap();
